@@ -127,7 +127,18 @@ pub fn execute_with(prop: &PropDef, cfg: &Cfg, evs: &[Ev], mut oracle: Box<dyn O
             Some(e) => Verdict::HarnessError(e.clone()),
             None => Verdict::Held,
         },
-        Ok(Err(v)) => Verdict::Violation(v),
+        Ok(Err(mut v)) => {
+            // two recorded defect areas get a signature of their own, so that the entry in known_findings.json names them and
+            // nothing else: edits made under isolate()/transaction_at() on a text that holds a conflicted element (index
+            // maintenance under a scope), and counters put into a text
+            if world.tags.contains("isolated-edit-of-conflicted-text") && v.signature.ends_with(":text") {
+                v.signature.push_str(":after-isolated-edit-of-conflicted-text");
+            }
+            if world.tags.contains("counter-in-text") && v.signature == "cursor-units" {
+                v.signature.push_str(":counter-in-text");
+            }
+            Verdict::Violation(v)
+        }
         Err(p) => {
             if p.is_harness() {
                 Verdict::HarnessError(format!("harness panic at {}:{}: {}", p.file, p.line, p.message))
